@@ -682,7 +682,10 @@ macro_rules! boolean_array_impl {
                 type Output = Self;
 
                 fn not(self) -> Self::Output {
-                    Self(self.0.not())
+                    let mut inverted = self.0.not();
+                    // the store can be wider than the array: keep the unused padding bits zero
+                    inverted[$bits..].fill(false);
+                    Self(inverted)
                 }
             }
 
